@@ -1519,6 +1519,39 @@ pub fn rec_expiry(args: &Args) {
         let after = live_with_prefix(&prefix);
         out.ev(json!({"op": "reclaim", "abandoned": n, "held_while_fresh": held, "live_before_use": before, "live_after_use": after, "ttl": ttl, "next_use": variant}));
     }
+    // retention under many keys: with an expiry far longer than the run, thousands of distinct other keys pass
+    // through the handler while abandoned transfers sit in the cache; none of them may be dropped
+    for crowd in if thorough { vec![1500usize, 5000, 20000] } else { vec![3000usize] } {
+        let prefix = format!("retained{}-", crowd);
+        let mut h = H::new(&mut out, 1152, 600_000, start);
+        for i in 0..3usize {
+            let epn = format!("{}{}", prefix, i);
+            let u0 = mkreq(&ReqSpec { code: 3, typ: 0, mid: next_mid(), tok: vec![2], segs: &up, b1: Some((0, true, 2)), b2: None, pay: body_bytes(64, i), extra: vec![] });
+            let mut req = CoapRequest::from_packet(u0, Ep::new(&epn));
+            let _ = guarded(|| h.h.intercept_request(&mut req));
+            let p0 = mkreq(&ReqSpec { code: 1, typ: 0, mid: next_mid(), tok: vec![1], segs: &seg, b1: None, b2: Some((0, false, 0)), pay: vec![], extra: vec![] });
+            let mut req = CoapRequest::from_packet(p0, Ep::new(&epn));
+            let _ = guarded(|| h.h.intercept_request(&mut req));
+            if let Some(resp) = req.response.as_mut() {
+                resp.message.payload = body_bytes(500, i);
+            }
+            let _ = guarded(|| h.h.intercept_response(&mut req));
+        }
+        let before = live_with_prefix(&prefix);
+        for i in 0..crowd {
+            let o = mkreq(&ReqSpec { code: 1, typ: 0, mid: next_mid(), tok: vec![3], segs: &[format!("crowd{}", i % 11).into_bytes()], b1: None, b2: None, pay: vec![], extra: vec![] });
+            let mut rq = CoapRequest::from_packet(o, Ep::new(&format!("crowd-{}-{}", crowd, i)));
+            let _ = guarded(|| h.h.intercept_request(&mut rq));
+            if i % 3 == 0 {
+                if let Some(resp) = rq.response.as_mut() {
+                    resp.message.payload = body_bytes(10, i);
+                }
+                let _ = guarded(|| h.h.intercept_response(&mut rq));
+            }
+        }
+        let after = live_with_prefix(&prefix);
+        out.ev(json!({"op": "retain", "crowd": crowd, "live_before_crowd": before, "live_after_crowd": after, "ttl": 600_000}));
+    }
     let n = out.finish();
     println!("{}", json!({"events": n}));
 }
